@@ -14,6 +14,8 @@ FIXED = [
      "fix: nice(), ionice() and cpu_affinity() setters on PID 0", "Process(0).nice(5) with PID 0 listed -> setpriority(PRIO_PROCESS, 0) renices the caller"),
     ("C02", ["is_running_False_want_True:after_clock_step", "eq_False_want_True:after_clock_step"],
      "fix: boot_time() after a system clock update", "btime step + boot_time() -> same live process compares unequal, is_running() False"),
+    ("C02", ["is_running_False_want_True:after_clock_step:boot_time_zero:fresh_interpreter", "eq_False_want_True:after_clock_step:boot_time_zero:fresh_interpreter"],
+     "fix: a boot time of 0 was not taken from the frozen snapshot", "btime 0 (clock at the epoch), then the clock is set: same live process unequal, is_running() False"),
     ("C03", ["leak:PermissionError:children", "leak:PermissionError:children_rec"],
      "fix: Process.children() leaked a bare PermissionError", "EACCES on /proc/<pid>/stat inside ppid_map()"),
     ("C03", ["malformed_value:threads:empty_list"], "fix: _raise_if_not_alive() probes /proc/PID/stat",
